@@ -7,6 +7,8 @@
 //@macro gneiss-mqtt/src/encode.rs add_optional_u32_property_length
 //@macro gneiss-mqtt/src/encode.rs add_optional_string_property_length
 //@macro gneiss-mqtt/src/encode.rs add_optional_bytes_property_length
+//@macro gneiss-mqtt/src/encode.rs add_optional_string_length
+//@macro gneiss-mqtt/src/encode.rs add_optional_bytes_length
 verus! {
 
 // ---- byte length of text: String::len() is the UTF-8 length; kept uninterpreted (only compared with limits).
@@ -326,6 +328,82 @@ pub open spec fn unsubscribe_static_ok(p: UnsubscribePacket) -> bool {
             forall|i: int| 0 <= i < it.index@ ==> filter_allowed((#[trigger] packet.topic_filters@[i])@, *context.negotiated_settings->Some_0, None),
 //@@at before "if !is_valid_topic_filter_internal(filter, context, None) {"
             proof { assert(0 <= it.index@ < packet.topic_filters@.len()); assert(*filter == packet.topic_filters@[it.index@ as int]); }
+//@end
+
+// =====================================================================================================
+// CONNECT (MQTT5 3.1 / MQTT 3.1.1 3.1): remaining length and property lengths = the wire layout, no overflow, no truncation (C02)
+// =====================================================================================================
+pub open spec fn opt_str_len(o: Option<String>) -> nat { match o { Some(s) => blen(s@), None => 0 } }
+pub open spec fn opt_bin_len(o: Option<Vec<u8>>) -> nat { match o { Some(b) => b@.len(), None => 0 } }
+pub open spec fn connect_props_len(p: ConnectPacket) -> nat {
+    opt_user_props_len(p.user_properties)
+        + (if p.session_expiry_interval_seconds is Some { 5nat } else { 0 }) + (if p.receive_maximum is Some { 3nat } else { 0 })
+        + (if p.maximum_packet_size_bytes is Some { 5nat } else { 0 }) + (if p.topic_alias_maximum is Some { 3nat } else { 0 })
+        + (if p.request_response_information is Some { 2nat } else { 0 }) + (if p.request_problem_information is Some { 2nat } else { 0 })
+        + opt_strprop_len(p.authentication_method) + opt_binprop_len(p.authentication_data)
+}
+pub open spec fn will_props_len(p: ConnectPacket) -> nat {
+    match p.will {
+        Some(will) => opt_user_props_len(will.user_properties)
+            + (if p.will_delay_interval_seconds is Some { 5nat } else { 0 }) + (if will.payload_format is Some { 2nat } else { 0 })
+            + (if will.message_expiry_interval_seconds is Some { 5nat } else { 0 })
+            + opt_strprop_len(will.content_type) + opt_strprop_len(will.response_topic) + opt_binprop_len(will.correlation_data),
+        None => 0,
+    }
+}
+// payload (3.1.3): client id, [will properties, will topic, will payload], [user name], [password] - each length-prefixed
+pub open spec fn connect_payload_len(p: ConnectPacket, v5: bool) -> nat {
+    2 + opt_str_len(p.client_id)
+        + (match p.will { Some(will) => (if v5 { vli_len(will_props_len(p)) + will_props_len(p) } else { 0 }) + 2 + blen(will.topic@) + 2 + opt_bin_len(will.payload), None => 0 })
+        + (match p.username { Some(u) => 2 + blen(u@), None => 0 }) + (match p.password { Some(pw) => 2 + pw@.len(), None => 0 })
+}
+pub open spec fn connect_remaining_len(p: ConnectPacket, v5: bool) -> nat {
+    10 + (if v5 { vli_len(connect_props_len(p)) + connect_props_len(p) } else { 0 }) + connect_payload_len(p, v5)
+}
+// A-MEM: no single field of a CONNECT is larger than 2^56 bytes (a usize sum of at most a dozen of them cannot wrap)
+pub open spec fn connect_fields_fit(p: ConnectPacket) -> bool {
+    &&& opt_str_len(p.client_id) <= 0x100000000000000 && opt_str_len(p.username) <= 0x100000000000000 && opt_bin_len(p.password) <= 0x100000000000000
+    &&& opt_str_len(p.authentication_method) <= 0x100000000000000 && opt_bin_len(p.authentication_data) <= 0x100000000000000
+    &&& ups_ok(p.user_properties) && (p.user_properties matches Some(ps) ==> count_ok(ps@.len()))
+    &&& (p.will matches Some(will) ==> blen(will.topic@) <= 0x100000000000000 && opt_bin_len(will.payload) <= 0x100000000000000
+            && opt_str_len(will.content_type) <= 0x100000000000000 && opt_str_len(will.response_topic) <= 0x100000000000000 && opt_bin_len(will.correlation_data) <= 0x100000000000000
+            && ups_ok(will.user_properties) && (will.user_properties matches Some(ps) ==> count_ok(ps@.len())))
+}
+
+//@fn gneiss-mqtt/src/mqtt/connect.rs compute_connect_packet_length_properties5 props=C02
+//@@attr #[verifier::rlimit(300)]
+//@@attr #[verifier::spinoff_prover]
+    requires connect_fields_fit(*packet),
+    ensures
+        r matches Ok((rem, props, wprops)) ==> rem == connect_remaining_len(*packet, true) && props == connect_props_len(*packet) && wprops == will_props_len(*packet) && rem <= 268435455,
+        connect_remaining_len(*packet, true) <= 268435455 ==> r is Ok,
+//@@at bodystart
+    proof {
+        if packet.user_properties is Some { lemma_user_props_len_bound(packet.user_properties->Some_0@, packet.user_properties->Some_0@.len()); }
+        if packet.will is Some && packet.will->Some_0.user_properties is Some { lemma_user_props_len_bound(packet.will->Some_0.user_properties->Some_0@, packet.will->Some_0.user_properties->Some_0@.len()); }
+    }
+//@@at before "let mut variable_header_length = compute_variable_length_integer_encode_size(connect_property_section_length)?;"
+    proof { assert(connect_property_section_length == connect_props_len(*packet)); assert(connect_property_section_length <= 16777216 * 131075 + 0x200000000000100); }
+//@@at before "let mut payload_length : usize = 0;"
+    let ghost vh = variable_header_length;
+    proof { assert(vh == 10 + vli_len(connect_props_len(*packet)) + connect_props_len(*packet)); }
+//@@at before "let will_properties_length_encode_size = compute_variable_length_integer_encode_size(will_property_length)?;"
+        proof { assert(will_property_length == will_props_len(*packet)); assert(payload_length == 2 + opt_str_len(packet.client_id)); }
+//@@at before "if let Some(username) = &packet.username {"
+    let ghost pl1 = payload_length;
+    proof {
+        assert(pl1 == 2 + opt_str_len(packet.client_id) + (match packet.will { Some(will) => vli_len(will_props_len(*packet)) + will_props_len(*packet) + 2 + blen(will.topic@) + 2 + opt_bin_len(will.payload), None => 0 }));
+        assert(packet.will is None ==> will_property_length == 0 && will_props_len(*packet) == 0);
+    }
+//@@at before "let total_remaining_length : usize = payload_length + variable_header_length;"
+    proof { assert(payload_length == connect_payload_len(*packet, true)); }
+//@end
+
+//@fn gneiss-mqtt/src/mqtt/connect.rs compute_connect_packet_length_properties311 props=C02
+    requires connect_fields_fit(*packet),
+    ensures
+        r matches Ok(rem) ==> rem == connect_remaining_len(*packet, false) && rem <= 268435455,
+        connect_remaining_len(*packet, false) <= 268435455 ==> r is Ok,
 //@end
 
 // =====================================================================================================
